@@ -16,7 +16,9 @@ CONSTANTS GKinds,      \* subset of {"write", "spell", "read"}
           GMaxDev,     \* bound on non-canonical features of one spelled rr line
           GLines,      \* line universe for kind "read"
           GDepth,      \* number of lines of a "read" behaviour
-          GProfiles    \* set of spelling-form records; one is drawn per "spell" behaviour
+          GProfiles,   \* set of spelling-form records; one is drawn per "spell" behaviour
+          GEmpties     \* kind "write": where EMPTY rdatasets / nodes are planted in the zone object
+                       \* ("none", "first", "mid", "last", "firstlast", "nodes"); they hold no record
 
 VARIABLES hist, phase, built, prof
 gvars == <<vars, hist, phase, built, prof>>
@@ -41,9 +43,9 @@ Start(kind, z, og) ==
 
 GInit ==
     \/ /\ "write" \in GKinds
-       /\ \E z \in GZones, st \in GStyles :
+       /\ \E z \in GZones, st \in GStyles, ep \in GEmpties :
             /\ rs = RInit(TRUE) /\ em = EmIdle /\ phase = "writejob" /\ built = {} /\ prof = PlainForms
-            /\ hist = [kind |-> "write", zone |-> Recs(z), style |-> st]
+            /\ hist = [kind |-> "write", zone |-> Recs(z), style |-> st, empties |-> ep]
     \/ /\ "spell" \in GKinds /\ \E z \in GZones, og \in GOriginGiven : Start("spell", z, og)
     \/ /\ "read" \in GKinds /\ \E og \in GOriginGiven : Start("read", {}, og)
     \/ \* build a zone of `target` records first; everything else about the behaviour is drawn here,
@@ -51,7 +53,8 @@ GInit ==
        /\ GBuildMax > 0
        /\ rs = RInit(TRUE) /\ em = EmIdle /\ phase = "build" /\ built = {} /\ prof \in GProfiles
        /\ \E target \in 1..GBuildMax :
-            \/ "write" \in GKinds /\ \E st \in GStyles : hist = [kind |-> "buildw", target |-> target, style |-> st]
+            \/ "write" \in GKinds /\ \E st \in GStyles, ep \in GEmpties :
+                                         hist = [kind |-> "buildw", target |-> target, style |-> st, empties |-> ep]
             \/ "spell" \in GKinds /\ \E og \in GOriginGiven : hist = [kind |-> "builds", target |-> target, og |-> og]
 
 Consistent(S) == /\ \A x, y \in S : (x[1] = y[1] /\ x[2] = y[2]) => x[3] = y[3]
@@ -65,7 +68,7 @@ GBuild ==
        ELSE /\ IF hist.kind = "builds"
                THEN /\ rs' = RInit(hist.og) /\ em' = EmSpell(ZoneOf(built)) /\ phase' = "spell"
                     /\ hist' = [kind |-> "spell", zone |-> built, og |-> hist.og, lines |-> <<>>]
-               ELSE /\ phase' = "writejob" /\ hist' = [kind |-> "write", zone |-> built, style |-> hist.style]
+               ELSE /\ phase' = "writejob" /\ hist' = [kind |-> "write", zone |-> built, style |-> hist.style, empties |-> hist.empties]
                     /\ UNCHANGED vars
             /\ UNCHANGED <<built, prof>>
 
@@ -114,6 +117,11 @@ RLinesMid == {RRLine(o, t, rd[1], rd[2], rd[3]) :
                 o \in {<<"at">>, <<"rel", <<"a">>>>, <<"blank">>, <<"abs", <<"x", "other">>>>}, t \in {<<"none">>, <<"t", 5>>},
                 rd \in RRd \ {<<"CNAME", << <<"abs", <<"t", "other">>>> >>, <<>>>>}}
              \cup RLinesDir
+\* a CNAME against every type family at one owner, both orders (depth 2) and with a third record
+AbsRefs(ns) == [i \in 1..Len(ns) |-> <<"abs", ns[i]>>]
+RLinesCname == {LET rd == CHOOSE rd \in RdOf(ty) : TRUE
+                IN [RRLine(<<"rel", <<"a">>>>, <<"t", 5>>, ty, AbsRefs(rd[1]), rd[2])
+                      EXCEPT !.gen = (ty = "TYPE65280"), !.tg = (ty = "TYPE65280")] : ty \in UTypes \ {"SOA"}}
 RLinesNoRelOrigin == RLinesFull \ {[k |-> "origin", name |-> <<"rel", <<"a">>>>]}
 \* a trimmed universe for depth-3 exhaustive runs
 RLinesSmall == {RRLine(o, t, rd[1], rd[2], rd[3]) :
@@ -135,6 +143,7 @@ PInherit == {[cls |-> {"IN"}, ord |-> {"tc"}, ttl |-> {"t"}, tg |-> {FALSE}, gen
 PSim == {[cls |-> {c}, ord |-> {o}, ttl |-> {"t", "u"}, tg |-> {g}, gen |-> {x}, lay |-> {y}, relorigin |-> TRUE] :
            c \in {"none", "IN", "CLASS1"}, o \in {"tc", "ct"}, g \in Bool, x \in Bool, y \in {"single", "paren", "parenc"}}
 GZCur == Curated
+GZEmpties == {Z1, Z2, Z3, Z6, Z7}
 GZNone == {}
 GZSingles == {ZoneOf({r}) : r \in {r \in AllRecs : r[3] = 300 /\ r[1] \in {<<>>, <<"b", "a">>}}}
 GZSinglesAll == Singles
